@@ -189,9 +189,22 @@ def _bad_op(rng, sh, k, corrupt_fn=None):
              "ref_clash", "ref_clash", "hdr_multi", "rename_malformed", "del_id", "placeholder_clash",
              "invalid_then_rm", "self_mention", "unknown_then_clash", "hdr_bad_predefined", "header_add",
              "grp_jstring", "unknown_then_malformed", "set_field_none", "stale_handle", "stale_handle",
-             "anonymise_mentioned"]
+             "anonymise_mentioned", "grp_edit", "grp_edit"]
     kind = rng.choice(kinds)
     tags = gen_tags(rng, k)
+    if kind == "grp_edit" and v == "gfa2":
+        # items added to / removed from a connected group through its methods (known and unknown identifiers,
+        # the group itself, lines of classes a group cannot list), then a removal
+        grp = sh.ids(["O", "U"])
+        if grp:
+            nm = rng.choice(grp)
+            pool = ids + [sh.fresh(rng), nm, "a b", ""]
+            ops_ = []
+            for _ in range(rng.randint(1, 3)):
+                ops_.append({"op": "grp_edit", "id": nm, "how": rng.choice(["add", "append", "prepend", "rm", "rm_first", "rm_last"]),
+                             "item": rng.choice(pool) + rng.choice(["+", "-", ""])})
+            ops_.append({"op": "rm", "id": rng.choice(ids), "how": rng.choice(["rm", "disconnect"])})
+            return kind, ops_
     if kind == "stale_handle":
         # the caller keeps a handle to a line that is replaced afterwards (a placeholder by its definition, the
         # first line of a group by the merged group), then removes / disconnects / renames through the handle
